@@ -45,6 +45,7 @@ Scenario(i) ==
     [] i = 20 -> [init |-> <<10, 0>>, ops |-> <<Op("set", 2, 21), Op("load", 1, 0)>>]
     [] i = 23 -> [init |-> <<10, 0>>, ops |-> <<Op("set", 2, 21), Op("open", 1, 0)>>]
     [] i = 24 -> [init |-> <<10, 0>>, ops |-> <<Op("set", 2, 21), Op("open", 1, 0), Op("load", 1, 0)>>]
+    [] i = 29 -> [init |-> <<10, 0>>, ops |-> <<Op("contains", 1, 0), Op("set", 2, 21)>>]
     [] OTHER -> [init |-> <<0, 0>>, ops |-> <<Op("len", 1, 0)>>]
 Sc == Scenario(SCEN)
 NP == Len(Sc.ops)
